@@ -11,6 +11,7 @@ import (
 	"sync/atomic"
 	"unsafe"
 
+	"github.com/filecoin-project/go-f3/certs"
 	"github.com/filecoin-project/go-f3/certstore"
 	"github.com/filecoin-project/go-f3/ec"
 	"github.com/filecoin-project/go-f3/gpbft"
@@ -120,4 +121,12 @@ func (v *VerifRunner) UnlockMsgs() { v.r.msgsMutex.Unlock() }
 func (v *VerifRunner) MsgsWaiters() (int, bool) {
 	st := atomic.LoadInt32((*int32)(unsafe.Pointer(&v.r.msgsMutex)))
 	return int(st >> 3), st&2 != 0
+}
+
+// VerifSaveDecision runs the production gpbftHost.saveDecision (decision -> power-table delta -> finality
+// certificate -> self-validation -> certificate store) on a runner that has exactly the parts it uses.
+func VerifSaveDecision(ctx context.Context, m manifest.Manifest, cs *certstore.Store, e ec.Backend, v gpbft.Verifier,
+	clk clock.Clock, decision *gpbft.Justification) (*certs.FinalityCertificate, error) {
+	r := &gpbftRunner{certStore: cs, manifest: m, ec: e, verifier: v, clock: clk, runningCtx: ctx, inputs: newInputs(m, cs, e, v, clk)}
+	return (*gpbftHost)(r).saveDecision(ctx, decision)
 }
